@@ -125,7 +125,7 @@ class SchemaDocGen:
                 out.append(G.arg(a["name"], self.value(a["type"], 0, True, True, a["hasDefault"])))
         return out
 
-    def cond_dirs(self):
+    def cond_dirs(self, loc="FIELD"):
         r = self.rng
         out = []
         if r.chance(1, 6):
@@ -136,7 +136,7 @@ class SchemaDocGen:
                 v = {"k": "bool", "v": r.chance(1, 2)}
             out.append(G.directive(d, [G.arg("if", v)]))
         for dd in self.exec_dirs:
-            if r.chance(1, 10):
+            if r.chance(1, 10) and any(l["n"] == loc for l in dd["locations"]):
                 out.append(G.directive(dd["name"], self.args_for(dd["args"])))
         return out
 
@@ -173,14 +173,14 @@ class SchemaDocGen:
                 # inline fragment: no condition, or any composite type whose possible types overlap
                 cands = [t for t, d in self.types.items() if d["k"] in ("object", "interface", "union") and self.possible(t) & self.possible(parent)]
                 if r.chance(1, 4) or not cands:
-                    sel.append(G.inline(self.selection(parent, depth + 1, frags), None, self.cond_dirs()))
+                    sel.append(G.inline(self.selection(parent, depth + 1, frags), None, self.cond_dirs("INLINE_FRAGMENT")))
                 else:
                     t = r.choice(sorted(cands))
-                    sel.append(G.inline(self.selection(t, depth + 1, frags), t, self.cond_dirs()))
+                    sel.append(G.inline(self.selection(t, depth + 1, frags), t, self.cond_dirs("INLINE_FRAGMENT")))
             else:
                 ok = [f for f in frags if self.possible(self.frag_defs[f]["on"]) & self.possible(parent)]
                 if ok:
-                    sel.append(G.spread(r.choice(ok), self.cond_dirs()))
+                    sel.append(G.spread(r.choice(ok), self.cond_dirs("FRAGMENT_SPREAD")))
         if not sel:
             sel.append(G.field("__typename"))
         return sel
